@@ -4,7 +4,7 @@ a scripted router that forwards between them - possibly late, reordered or tampe
 """
 
 from sim import backend
-from sim.core import HarnessError
+from sim.core import SetupViolation, HarnessError
 from sim.seams import SEAMS
 from worlds.wamp import SessionWorld, StubTransport, session_classes, _mshort
 
@@ -41,11 +41,11 @@ class DuoWorld(SessionWorld):
             sid += 1
             err = self.deliver_to(side, message.Welcome(sid, roles, realm="realm1", authid=side.name, authrole="user", authmethod="anonymous"))
             if err is not None:
-                raise HarnessError("join failed for %s: %r" % (side.name, err))
+                raise SetupViolation("session-did-not-join-on-WELCOME", "%s: %r" % (side.name, err))
         self.settle()
         for side in self.sides.values():
             if side.session._session_id is None:
-                raise HarnessError("%s did not join" % side.name)
+                raise SetupViolation("session-did-not-join-on-WELCOME", side.name)
             side.cursor = len(side.inbox)
 
     def deliver_to(self, side, msg, roundtrip=True):
